@@ -94,6 +94,8 @@ XYT = [("magfield", 1.0, 2.0, 2.0), ("slm", ["q1"]), ("declare", "m", "mw_global
 XYI = [("magfield", 0.0, 1.0, 0.0), ("declare", "m", "mw_global")]
 PERM = {"q2": [3.0, 9.0], "q0": [0.0, 0.0], "q1": [8.0, 0.0]}
 R3D = {"q1": [8.0, 0.0, 1.0], "q0": [0.0, 0.0, 0.0], "q2": [3.0, 9.0, -4.0]}
+INTPERM = {"q0": 2, "q1": 0, "q2": 1}
+STRPERM = {"q0": "z", "q1": "a", "q2": "m"}
 SHORT = [("add", ["c", 20, 1.0, 0.5, 1.0], "m"), ("add", ["r", 24, 2.0, -1.0, 1.0, 0.3], "m", "no-delay"), ("delay", 16, "m")]
 
 
@@ -109,6 +111,11 @@ def plan(tier, seed):
         (corner("unit", prefix=XYI, qubits=3, name="xy-inplane-field"), SHORT, d),
         (corner("real", prefix=A.GG, qubits=2, name="real-two-globals", rydberg_level=100), A.render(l=None, g2="h"), d),
         (corner("unit8", prefix=A.DG, qubits=3, name="unit8-dmm-first"), A.render(l="r", dmm="dmm_0", eom=False), d),
+        # qubit ids that are integers / strings whose sorted or index order differs from the register order
+        (corner("unit8", prefix=A.GR, qubits=3, qid_alias=INTPERM, name="unit8-int-ids-out-of-order"), A.render(l="r"), d),
+        (corner("unit", prefix=XYT, qubits=3, qid_alias=INTPERM, name="xy-int-ids-out-of-order"), SHORT, d),
+        (corner("mixed", prefix=A.GLD, qubits=3, qid_alias=STRPERM, name="mixed-dmm-str-ids-out-of-order"),
+         A.render(dmm="dmm_0", eom=False), d),
     ]
     return worlds
 
